@@ -165,6 +165,69 @@ func mxOps(t *gen.Type) *gen.Program {
 	return p
 }
 
+// mxLiteralOps: run-time left operands (boundary values, negatives that are not multiples of the
+// right operand) against LITERAL right operands — powers of two, their neighbours, negative
+// powers of two, 1, 10, the type's extremes — for * / % + -, where a back end may pick a cheaper
+// instruction sequence for the constant (shift for division, mask for remainder, lea for multiply).
+func mxLiteralOps(t *gen.Type) *gen.Program {
+	p := &gen.Program{Features: map[string]bool{}}
+	id := mxIdent(t)
+	p.Funcs = append(p.Funcs, id)
+	bits := uint(t.Bits)
+	var rights []int64
+	for _, k := range []uint{0, 1, 2, 3, 4, 6, 7, 8, 15, 16, 31, 32, 62} {
+		if k < bits-1 || (!t.Signed && k < bits) {
+			rights = append(rights, int64(1)<<k)
+			if t.Signed && k > 0 {
+				rights = append(rights, -(int64(1) << k))
+			}
+		}
+	}
+	rights = append(rights, 3, 5, 7, 10, 100)
+	lefts := []int64{0, 1, 2, 7, 13, 100, 127}
+	if t.Signed {
+		lefts = append(lefts, -1, -2, -7, -13, -100, -128)
+	}
+	for _, v := range mxBoundary(t)[:6] {
+		lefts = append(lefts, v)
+	}
+	a := &gen.Var{Name: "a", T: t}
+	var fns []*gen.Func
+	for ri, rv := range rights {
+		if gen.Norm(t, rv) != rv || rv == 0 {
+			continue
+		}
+		var body []gen.Stmt
+		n := 0
+		for _, op := range []string{"/", "%", "*", "+", "-"} {
+			if (op == "/" || op == "%") && t.Signed && rv == -1 {
+				continue
+			}
+			n++
+			body = append(body, mxPrintLet(fmt.Sprintf("r%d", n), t, &gen.Bin{Op: op, L: a, R: mxLit(t, rv), T: t})...)
+		}
+		// the quotient multiplied back, inside one expression
+		n++
+		body = append(body, mxPrintLet(fmt.Sprintf("r%d", n), t, &gen.Bin{Op: "*", L: &gen.Bin{Op: "/", L: a, R: mxLit(t, rv), T: t}, R: mxLit(t, rv), T: t})...)
+		f := &gen.Func{Name: fmt.Sprintf("by%d", ri), Params: []gen.Param{{Name: "a", T: t}}, Ret: gen.TVoid, Body: body}
+		fns = append(fns, f)
+		p.Funcs = append(p.Funcs, f)
+	}
+	k := 0
+	for _, lv := range lefts {
+		if gen.Norm(t, lv) != lv {
+			continue
+		}
+		k++
+		an := fmt.Sprintf("a%d", k)
+		p.Main = append(p.Main, &gen.Let{Name: an, T: t, Init: &gen.Call{Fn: id, Args: []gen.Expr{mxLit(t, lv)}}, Annot: true})
+		for _, f := range fns {
+			p.Main = append(p.Main, &gen.ExprStmt{X: &gen.Call{Fn: f, Args: []gen.Expr{&gen.Var{Name: an, T: t}}}})
+		}
+	}
+	return p
+}
+
 // mxParams: parameters touched first (or reassigned) away from the entry block of the callee.
 func mxParams() *gen.Program {
 	I16, I32, I64 := gen.I16, gen.I32, gen.I64
@@ -278,6 +341,9 @@ func matrixPrograms() []matrixProg {
 	}
 	for _, t := range gen.IntTypes {
 		out = append(out, matrixProg{name: "ops-" + t.String(), p: mxOps(t), wasmOK: true})
+	}
+	for _, t := range gen.IntTypes {
+		out = append(out, matrixProg{name: "literal-operands-" + t.String(), p: mxLiteralOps(t), wasmOK: true})
 	}
 	out = append(out, matrixProg{name: "params", p: mxParams(), wasmOK: true})
 	out = append(out, matrixProg{name: "write-through", p: mxWriteThrough(), wasmOK: true})
